@@ -178,6 +178,12 @@ func (t *translator) expr(e ast.Expr) string {
 			return "(" + a + " || " + b + ")"
 		case token.ADD:
 			return "(" + a + " + " + b + ")"
+		case token.SUB:
+			return "(" + a + " - " + b + ")"
+		case token.SHR:
+			if bl, ok := x.Y.(*ast.BasicLit); ok && bl.Value == "1" {
+				return "(" + a + " / 2)" // a non-negative operand in the translated code (the tie proof needs it)
+			}
 		}
 	case *ast.CallExpr:
 		if id, ok := x.Fun.(*ast.Ident); ok && id.Name == "len" && len(x.Args) == 1 {
@@ -403,7 +409,7 @@ func (t *translator) stmts(list []ast.Stmt, next func() string, cont, brk string
 		}
 		return t.fail("unsupported declaration %s", goStr(x))
 	case *ast.AssignStmt:
-		if len(x.Lhs) == 2 && len(x.Rhs) == 2 && x.Tok == token.ASSIGN {
+		if len(x.Lhs) == 2 && len(x.Rhs) == 2 {
 			// a, b = e1, e2 on tracked variables: both right-hand sides first
 			l0, ok0 := t.lookup(x.Lhs[0])
 			l1, ok1 := t.lookup(x.Lhs[1])
@@ -1005,6 +1011,64 @@ func genLSM(repo, out string) {
 		d = fmt.Sprintf("/-- UNTRANSLATABLE: %s -/\ndef %s : Unit := ()\n", strings.ReplaceAll(err.Error(), "-/", "- /"), spec.leanName)
 	}
 	sb.WriteString(d + "\nend GenLSM\n")
+	if err := os.WriteFile(out, []byte(sb.String()), 0644); err != nil {
+		fatal(err)
+	}
+}
+
+// genTable writes Generated/Table.lean: the binary searches Data.LowerBound and Index.LowerBound
+func genTable(repo, out string) {
+	p := parseDir(repo + "/table")
+	var sb strings.Builder
+	sb.WriteString("import Originium.Model.BS\n")
+	sb.WriteString("/-! GENERATED by /verif/extract (gotrans.go) from /repo/table/data.go and index.go on every check run. Do not edit.\n")
+	sb.WriteString("    The hand-written binary searches `Data.LowerBound` and `Index.LowerBound` as functions returning the index found.\n")
+	sb.WriteString("    `p a` stands for `types.CompareKeys(a.Key, key) >= 0` (data entries) / `CompareKeys(a.EndKey, key) >= 0` (index\n")
+	sb.WriteString("    entries); element `i` is read through `BS.geOf p entries i`; `low`, `high`, `mid` are Go ints (`Int`).\n")
+	sb.WriteString("    `Model/TableTie.lean` proves both equal to `BS.lowerIdx`. -/\n")
+	sb.WriteString("set_option linter.unusedVariables false\nnamespace GenTable\n\n")
+	for _, it := range []struct{ recv, field, key, name, zero string }{
+		{"Data", "d.Entries", "Key", "dataLowerIdx", "types.Entry{}"},
+		{"Index", "i.Entries", "EndKey", "indexLowerIdx", "BlockHandle{}"},
+	} {
+		fd := findFunc(p, it.recv, "LowerBound")
+		ret0 := it.field + "[mid]"
+		if it.recv == "Index" {
+			ret0 = it.field + "[mid].DataHandle"
+		}
+		spec := transSpec{
+			leanName: it.name,
+			binders:  "{α : Type} (p : α → Bool) (entries : List α)",
+			retType:  "Option Nat",
+			exprMap: map[string]string{
+				"types.CompareKeys(" + it.field + "[mid]." + it.key + ", key) >= 0":  "(BS.geOf p entries mid.toNat)",
+				"types.CompareKeys(" + it.field + "[mid-1]." + it.key + ", key) < 0": "(!(BS.geOf p entries (mid - 1).toNat))",
+				it.field: "entries", ret0: "mid.toNat", it.zero: "0"},
+			state: []string{"low", "high"}, stateLn: []string{"low", "high"}, stateTy: []string{"Int", "Int"},
+			litType: "Int", loopFuel: "(entries.length + 1)",
+			ret: func(vals []string, st []string) string {
+				if vals[1] == "true" {
+					return "some " + vals[0]
+				}
+				return "none"
+			},
+			fallOff:  func(st []string) string { return "none" },
+			panicVal: "none",
+		}
+		d := ""
+		err := fmt.Errorf("%s.LowerBound not found", it.recv)
+		if fd != nil {
+			t := &translator{spec: spec}
+			tr := t.stmts(fd.Body.List, func() string { return "none" }, "", "")
+			err = t.err
+			d = fmt.Sprintf("def %s %s : %s :=\n  let low : Int := 0\n  let high : Int := 0\n  %s\n", spec.leanName, spec.binders, spec.retType, tr)
+		}
+		if err != nil {
+			d = fmt.Sprintf("/-- UNTRANSLATABLE: %s -/\ndef %s : Unit := ()\n", strings.ReplaceAll(err.Error(), "-/", "- /"), spec.leanName)
+		}
+		sb.WriteString(d + "\n")
+	}
+	sb.WriteString("end GenTable\n")
 	if err := os.WriteFile(out, []byte(sb.String()), 0644); err != nil {
 		fatal(err)
 	}
